@@ -352,12 +352,23 @@ func ruleC02Exh(p *Prog, r *Res) {
 		// parser keyword table values are declared keys and all distinct
 		if f := p.Fn("query.sortTerm.Capture"); f != nil {
 			found := 0
-			ast.Inspect(f.Body(), func(x ast.Node) bool {
+			// the keyword table: a map literal with SortingKey values anywhere in package query (inside Capture on the pinned
+			// tree; a package-level table is the same thing)
+			inspectFiles := func(visit func(ast.Node) bool) {
+				for _, file := range f.Pkg.Syntax {
+					ast.Inspect(file, visit)
+				}
+			}
+			inspectFiles(func(x ast.Node) bool {
 				cl, ok := x.(*ast.CompositeLit)
 				if !ok {
 					return true
 				}
-				mt, ok := f.Pkg.TypesInfo.TypeOf(cl).Underlying().(*types.Map)
+				tcl := f.Pkg.TypesInfo.TypeOf(cl)
+				if tcl == nil {
+					return true
+				}
+				mt, ok := tcl.Underlying().(*types.Map)
 				if !ok || !types.Identical(types.Unalias(mt.Elem()), sk) {
 					return true
 				}
